@@ -194,7 +194,7 @@ def cases(draw):
     src = draw(st.sampled_from(["corpus", "generated", "generated", "format", "timestamp"]))
     c = {"b1": b1, "b2": b2, "mode": mode, "parsers": parsers, "src": src}
     if src == "corpus":
-        e = corpus()[draw(st.integers(0, len(corpus()) - 1))]
+        e = draw(st.sampled_from(corpus()))
         lang = e["locale"]
         if lang not in data.language_order():
             lang = lang.rsplit("-", 1)[0]
@@ -278,13 +278,18 @@ def cases(draw):
 
 
 def _corpus_walk(ctx):
-    """thorough: the whole corpus x all modes."""
+    """the whole corpus x all modes (quick: two seeded modes per string).  Enumerated, because index draws into a 3,000-string
+    pool by Hypothesis revisit a small part of it over and over."""
     def it(shard, nshards):
         for i, e in enumerate(corpus()):
             if i % nshards != shard:
                 continue
             lang = e["locale"] if e["locale"] in data.language_order() else e["locale"].rsplit("-", 1)[0]
-            for mode in MODES:
+            modes = MODES
+            if ctx.quick:
+                h = derive_seed(ctx.seed, "mode", i)
+                modes = [MODES[h % len(MODES)], MODES[(h >> 16) % len(MODES)]]
+            for mode in modes:
                 yield {"b1": [2014, 9, 1, 10, 30, 0, 0], "b2": [2031, 3, 17, 4, 5, 0, 0], "mode": mode,
                        "parsers": ["timestamp", "custom-formats", "absolute-time"],
                        "src": "corpus", "s": e["s"], "lang": lang}
@@ -292,7 +297,5 @@ def _corpus_walk(ctx):
 
 
 def stages(ctx):
-    out = [Stage("strictness", "hyp", strategy=cases(), examples=ctx.n(30000, 300000))]
-    if not ctx.quick:
-        out.append(Stage("corpus_walk", "enum", cases=_corpus_walk(ctx), exhaustive=True))
-    return out
+    return [Stage("corpus_walk", "enum", cases=_corpus_walk(ctx), exhaustive=not ctx.quick),
+            Stage("strictness", "hyp", strategy=cases(), examples=ctx.n(24000, 300000))]
